@@ -41,6 +41,11 @@ IO = 'chainables.io'
 def run(ctx: Ctx):
   for r in (r1, r2, r3, r4, r6, r8, r9, r10, r11, r12, r14, r15, r16, r17):
     ctx.guard(r)
+  from mlmverif.props import c12
+  ctx.include('R-C10-18', '"continues with exactly the elements not yet delivered", for a pipeline that skips unreadable records: a'
+              ' restored iterator re-reads the delivered prefix, so every unreadable record before the cut fails again, back to'
+              ' back — the skip wrapper steps over EVERY skippable error and never gives up after some number of them'
+              ' (R-C12-3: on a skippable error iter_ignore_error yields the marker and continues)', c12.r3, min_instances=2)
   from mlmverif.props import c03
   ctx.include('R-C10-13', '"the captured state": MultiplexIterator.state reads the positions of `_source_iterators` — the'
               ' in-process chain over several sources iterates exactly these iterator objects (R-C03-1 input wiring); a chain'
@@ -1011,6 +1016,8 @@ _F = 'chainables/io.py'
 _T = 'chainables/transform.py'
 _U = 'utils/iter_utils.py'
 VARIANTS = [
+    B('skip-wrapper-gives-up-after-many-failures', 'utils/iter_utils.py',
+      "    except _IGNORE_ERROR_TYPES:\n      if error_return is not None:", "    except _IGNORE_ERROR_TYPES:\n      failures = getattr(iter_ignore_error, '_n', 0) + 1\n      iter_ignore_error._n = failures\n      if failures > 100:\n        raise\n      if error_return is not None:", 'R-C10-18'),
     B('shard-state-grafted-onto-the-live-source', 'chainables/transform.py',
       "      if types.is_recoverable(data_source):\n        data_source = data_source.from_state(input_state)",
       "      if types.is_recoverable(data_source):\n        input_state = dataclasses.replace(input_state, parent=data_source.state)\n        data_source = data_source.from_state(input_state)", 'R-C10-17'),
